@@ -1,6 +1,12 @@
 // Trusted model of the parts of the `redis` crate used by deadpool-redis (A7).
 #[verifier::external_body]
 pub struct RedisError { _p: () }
+// RedisError::retry_method(): how the `redis` crate classifies an error reply; opaque here (any answer is possible)
+pub enum RetryMethod { Reconnect, NoRetry, RetryImmediately, WaitAndRetry, AskRedirect, MovedRedirect, ReconnectFromInitialConnections }
+impl RedisError {
+    #[verifier::external_body]
+    pub fn retry_method(&self) -> (r: RetryMethod) { unimplemented!() }
+}
 
 // one command of a pipeline: name, arguments, and whether its reply is ignored
 pub struct CmdV { pub name: Seq<char>, pub args: Seq<Seq<char>>, pub ignored: bool }
